@@ -12,7 +12,7 @@ variable (E : Evaluator)
 
 theorem Ext.getElem_core {a b : WState} (h : a.Ext b) {i : Nat} {r : Rec} (hr : a.sequence[i]? = some r) :
     ∃ r', b.sequence[i]? = some r' ∧ r'.core = r.core := by
-  obtain ⟨_, _, l, hl⟩ := h
+  obtain ⟨_, _, ⟨l, hl⟩, _⟩ := h
   have h1 : (a.sequence.map Rec.core)[i]? = some r.core := by simp [hr]
   have h2 : (b.sequence.map Rec.core)[i]? = some r.core := by
     rw [hl]
@@ -122,10 +122,10 @@ macro "tk_leaf" : tactic => `(tactic| (
   · intro st
     first
     | exact Ext.appendRoute _ _
-    | exact Ext.appendCtx _ _ _ _ (fun _ => rfl)
+    | exact Ext.appendCtx _ _ _ _ _ (fun _ => rfl)
     | exact Ext.appendRerun _ _
     | exact Ext.setStatus _ _
-    | exact Ext.of_eq (by simp) (by simp) (by ext_core)
+    | exact Ext.of_eq (by simp) (by simp) (by ext_core) (by first | rfl | (simp; done))
   · intro st
     first | rfl | (simp; done)))
 
